@@ -35,7 +35,7 @@ def plan(tier, seed):
 def gen_marks(rng):
     n = rng.choice((0, 1, 1, 2, 3, 4, 6))
     cands = [rng.randint(1, 4) for _ in range(n)]
-    return [{"CandidateId": c, "PartyId": 0, "Rank": rng.choice((0, 1, 1, 2, 3, 4, 5)), "MarkDensity": rng.randint(0, 100),
+    return [{"CandidateId": c, "PartyId": 0, "Rank": rng.choice((0, 1, 1, 2, 3, 4, 5, 9, 10, 11, 23)), "MarkDensity": rng.randint(0, 100),
              "IsAmbiguous": False, "IsVote": rng.random() < 0.7} for c in cands]
 
 
